@@ -1,10 +1,177 @@
 import Driver.Common
-/-! C11 driver (stub: answers bad-op until the property's model is wired in). -/
-open Driver
+import Sourmash.Model.Select
+import Sourmash.Spec.Select
+/-! C11 driver: selection on signatures, manifests, collections.
+Model column = the functions of `Model/Select.lean` (what the theorems are about);
+spec column = filter by `satisfies` + `deliver` from `Spec/Select.lean`, on positions. -/
+open Driver Select Scaled
 
-def stepC11 (s : Unit) (ws : List String) : Unit × Resp :=
+structure St where
+  sigs : List Sig := []
+
+def seed0 : Nat := 1000
+
+def molOfString (s : String) : Mol :=
+  if s == "protein" then .protein else if s == "dayhoff" then .dayhoff else if s == "hp" then .hp else .dna
+
+def molString : Mol → String
+  | .dna => "dna" | .protein => "protein" | .dayhoff => "dayhoff" | .hp => "hp"
+
+def optBytes (s : String) : Option Select.Bytes := if s == "~" then none else some (unhex s)
+
+def bytesString (b : Select.Bytes) : String := String.fromUTF8! (ByteArray.mk b.toArray)
+
+def parseSel (ws : List String) : Selection :=
   match ws with
-  | "case" :: _ => (s, { model := "ok" })
-  | _ => (s, { model := "bad-op" })
+  | [k, m, a, n, s] =>
+    { ksize := if k == "-" then none else some k.toNat!
+      moltype := if m == "-" then none else some (molOfString m)
+      abund := if a == "-" then none else some (a == "1")
+      num := if n == "-" then none else some n.toNat!
+      scaled := if s == "-" then none else some s.toNat! }
+  | _ => {}
 
-def main : IO Unit := Driver.run () stepC11
+def descr (s : Sketch) : String :=
+  "/".intercalate [toString (s.seed - seed0), toString s.ksize, molString s.mol, toString s.num,
+    toString s.scaled, (if s.tracked then "1" else "0"), (match s.container with | .vec => "v" | .tree => "t"),
+    toString s.mins.length, showNats s.mins, showNats s.abunds]
+
+def descrList (l : List Sketch) : String :=
+  if l.isEmpty then "-" else ";".intercalate (l.map descr)
+
+def showSel (r : Except Err Sig) : String :=
+  match r with
+  | .ok s => descrList s.sketches
+  | .error e => "err " ++ (match e with
+      | .CannotUpsampleScaled => "CannotUpsampleScaled"
+      | .MismatchKSizes => "MismatchKSizes"
+      | .MismatchDNAProt => "MismatchDNAProt")
+
+def errName : Err → String
+  | .CannotUpsampleScaled => "CannotUpsampleScaled"
+  | .MismatchKSizes => "MismatchKSizes"
+  | .MismatchDNAProt => "MismatchDNAProt"
+
+def rowString (g : String) (r : Record) : String :=
+  ":".intercalate [g, bytesString r.internalLocation, toString r.ksize,
+    (match r.mol? with | some m => molString m | none => "custom"), toString r.num, toString r.scaled,
+    (if r.withAbundance then "1" else "0"), toString r.nHashes]
+
+/-- leftmost order-preserving embedding of `kept` into `orig` (same canonicalisation as the harness) -/
+def embed (orig : List Record) (kept : List Record) : List (Option Nat) :=
+  let rec go (fuel : Nat) (p : Nat) (o : List Record) (k : List Record) : List (Option Nat) :=
+    match fuel, k with
+    | 0, _ => k.map (fun _ => none)
+    | _, [] => []
+    | fuel + 1, r :: ks =>
+      match o with
+      | [] => none :: go fuel p [] ks
+      | x :: xs => if x == r then some p :: go fuel (p + 1) xs ks else go fuel (p + 1) xs (r :: ks)
+  go (orig.length + kept.length + 1) 0 orig kept
+
+def rowsString (orig kept : List Record) : String :=
+  if kept.isEmpty then "-" else
+  ";".intercalate ((embed orig kept).zip kept |>.map (fun (g, r) =>
+    rowString (match g with | some p => toString p | none => "?") r))
+
+/-- spec: rows at the positions that `satisfies` retains -/
+def rowsSpec (sel : Selection) (orig : List Record) : String :=
+  let pos := retainedFrom (fun r => satisfies sel r.described) 0 orig
+  if pos.isEmpty then "-" else
+  ";".intercalate (pos.map (fun p => rowString (toString p) (orig[p]!)))
+
+/-- md5 is not observed by this property; names are always present in its cases -/
+def md5of (_ : Sketch) : Select.Bytes := []
+
+def allRows (st : St) : List Record :=
+  (st.sigs.zipIdx.map (fun (s, i) => (fromSig md5of s (natBytes i)).getD [])).flatten
+
+def stepC11 (st : St) (ws : List String) : St × Resp :=
+  match ws with
+  | "case" :: _ => ({}, { model := "ok" })
+  | ["sig", n, f] =>
+    ({ st with sigs := st.sigs ++ [{ name := optBytes n, filename := optBytes f, sketches := [] }] }, { model := "ok" })
+  | ["sk", k, m, n, sc, tr, c, mins, abunds] =>
+    match st.sigs.reverse with
+    | [] => (st, { model := "bad-op" })
+    | sg :: before =>
+      let sk : Sketch :=
+        { ksize := k.toNat!, mol := molOfString m, num := n.toNat!, maxHash := maxHashForScaled sc.toNat!,
+          tracked := tr == "1", container := if c == "v" then .vec else .tree,
+          seed := seed0 + sg.sketches.length, mins := natList mins, abunds := natList abunds }
+      let sg' := { sg with sketches := sg.sketches ++ [sk] }
+      ({ st with sigs := (sg' :: before).reverse }, { model := descr sk })
+  | op :: rest =>
+    if op == "ssel" || op == "stsel" then
+      match rest with
+      | i :: selw =>
+        let sel := parseSel selw
+        let sg := st.sigs[i.toNat!]!
+        let r := if op == "ssel" then sg.select sel else sigStoreSelect sel sg
+        (st, { model := showSel r, spec := descrList (selectSpec sel sg.sketches) })
+      | _ => (st, { model := "bad-op" })
+    else if op == "msel" || op == "msel2" || op == "csel" || op == "lsel" then
+      let sel := parseSel rest
+      let orig := allRows st
+      let model :=
+        if op == "msel" then rowsString orig (manifestSelect sel orig)
+        else if op == "msel2" then rowsString orig (manifestSelect sel (manifestSelect sel orig))
+        else
+          match Collection.fromSigs md5of st.sigs with
+          | none => "PANIC"
+          | some c =>
+            if op == "csel" then rowsString c.manifest (c.select sel).manifest
+            else match linearSelect sel c with
+              | .ok c' => rowsString c.manifest c'.manifest
+              | .error e => "err " ++ errName e
+      (st, { model := model, spec := rowsSpec sel orig })
+    else if op == "cset" then
+      let sel := parseSel rest
+      match Collection.fromSigs md5of st.sigs with
+      | none => (st, { model := "PANIC" })
+      | some c =>
+        let c' := c.select sel
+        (st, { model := match collectionSetCheck c'.manifest with
+                        | .ok () => "ok " ++ toString c'.manifest.length
+                        | .error e => "err " ++ errName e })
+    else if op == "cload" then
+      let sel := parseSel rest
+      match Collection.fromSigs md5of st.sigs with
+      | none => (st, { model := "PANIC" })
+      | some c =>
+        let c' := c.select sel
+        let one (r : Record) : Option String :=
+          match c'.sigFromRecord r with
+          | none => none
+          | some (.error e) => some ("err " ++ errName e)
+          | some (.ok sg) =>
+            match sigStoreSelect sel sg with
+            | .ok sg' => some (bytesString r.internalLocation ++ "=" ++ descrList sg'.sketches)
+            | .error e => some ("err " ++ errName e)
+        let outs := c'.manifest.map one
+        let model :=
+          if outs.any Option.isNone then "PANIC"
+          else if outs.isEmpty then "-" else "|".intercalate (outs.filterMap id)
+        -- spec: for every sketch that satisfies the request, in collection order, that one sketch delivered
+        let specs := (st.sigs.zipIdx.map (fun (sg, i) =>
+          (sg.sketches.filter (fun s => satisfies sel s.described)).map (fun s =>
+            toString i ++ "=" ++ descr (deliver sel s)))).flatten
+        (st, { model := model, spec := if specs.isEmpty then "-" else "|".intercalate specs })
+    else if op == "agree" then
+      match rest with
+      | i :: selw =>
+        let sel := parseSel selw
+        let sg := st.sigs[i.toNat!]!
+        let recs := (fromSig md5of sg [120]).getD []
+        let mpos := (embed recs (manifestSelect sel recs)).filterMap id
+        let spos := match sg.select sel with
+          | .ok s => s.sketches.map (fun s => s.seed - seed0)
+          | .error _ => []
+        let want := retainedFrom (fun s => satisfies sel s.described) 0 sg.sketches
+        (st, { model := "m=" ++ showNats mpos ++ " s=" ++ showNats spos,
+               spec := "m=" ++ showNats want ++ " s=" ++ showNats want })
+      | _ => (st, { model := "bad-op" })
+    else (st, { model := "bad-op" })
+  | _ => (st, { model := "bad-op" })
+
+def main : IO Unit := Driver.run ({} : St) stepC11
